@@ -77,15 +77,28 @@ pub fn pair() -> (MockStream, Peer) {
     )
 }
 
-fn recompute(sh: &Shared, r: &SetReadiness) {
-    let mut ready = Ready::empty();
-    if !sh.inbound.is_empty() || sh.inbound_end != Fault::None {
-        ready |= Ready::readable();
+/// Readiness is EDGE-triggered like a socket under epoll/EPOLLET (which is how amiquip registers
+/// its stream): a readable event is raised when new data (or the end of the stream) ARRIVES, a
+/// writable event when the transport BECOMES able to take data after having refused it - never
+/// merely because a read or a write was made.  The bits themselves stay set until a call reports
+/// would-block, so that a re-registration (EPOLL_CTL_MOD) finds the condition and fires again,
+/// which is what amiquip's loop relies on when it still has data to write.
+fn fire(r: &SetReadiness, bit: Ready) {
+    let cur = r.readiness();
+    // mio ignores a set_readiness that changes nothing: drop the bit first so that the edge is seen
+    let _ = r.set_readiness(cur - bit);
+    let _ = r.set_readiness(cur | bit);
+}
+
+fn clear(r: &SetReadiness, bit: Ready) {
+    let cur = r.readiness();
+    if cur.contains(bit) {
+        let _ = r.set_readiness(cur - bit);
     }
-    if sh.budget.map(|b| b > 0).unwrap_or(true) || sh.write_fault || sh.write_fault_after.is_some() {
-        ready |= Ready::writable();
-    }
-    let _ = r.set_readiness(ready);
+}
+
+fn can_write(sh: &Shared) -> bool {
+    sh.budget.map(|b| b > 0).unwrap_or(true) || sh.write_fault || sh.write_fault_after.is_some()
 }
 
 impl io::Read for MockStream {
@@ -96,11 +109,13 @@ impl io::Read for MockStream {
         sh.last_read_at = Some(Instant::now());
         if sh.inbound.is_empty() {
             let r = match sh.inbound_end {
-                Fault::None => Err(io::ErrorKind::WouldBlock.into()),
+                Fault::None => {
+                    clear(&self.readiness, Ready::readable());
+                    Err(io::ErrorKind::WouldBlock.into())
+                }
                 Fault::Eof => Ok(0),
                 Fault::Reset => Err(io::Error::new(io::ErrorKind::ConnectionReset, "mock reset")),
             };
-            recompute(&sh, &self.readiness);
             cv.notify_all();
             return r;
         }
@@ -108,7 +123,6 @@ impl io::Read for MockStream {
         for b in buf.iter_mut().take(n) {
             *b = sh.inbound.pop_front().unwrap();
         }
-        recompute(&sh, &self.readiness);
         cv.notify_all();
         Ok(n)
     }
@@ -141,7 +155,7 @@ impl io::Write for MockStream {
         }
         let allowed = sh.budget.unwrap_or(usize::MAX).min(sh.max_write.max(1));
         if allowed == 0 || sh.budget == Some(0) {
-            recompute(&sh, &self.readiness);
+            clear(&self.readiness, Ready::writable());
             return Err(io::ErrorKind::WouldBlock.into());
         }
         let n = buf.len().min(allowed);
@@ -151,7 +165,6 @@ impl io::Write for MockStream {
         }
         let total = sh.outbound.len();
         sh.write_log.push((Instant::now(), total));
-        recompute(&sh, &self.readiness);
         cv.notify_all();
         Ok(n)
     }
@@ -190,7 +203,7 @@ impl Peer {
         let (m, cv) = &*self.shared;
         let mut sh = m.lock().unwrap();
         sh.inbound.extend(bytes.iter().copied());
-        recompute(&sh, &self.readiness);
+        fire(&self.readiness, Ready::readable());
         cv.notify_all();
     }
 
@@ -200,7 +213,7 @@ impl Peer {
         let mut sh = m.lock().unwrap();
         sh.inbound.extend(bytes.iter().copied());
         sh.inbound_end = f;
-        recompute(&sh, &self.readiness);
+        fire(&self.readiness, Ready::readable());
         cv.notify_all();
     }
 
@@ -209,7 +222,7 @@ impl Peer {
         let (m, cv) = &*self.shared;
         let mut sh = m.lock().unwrap();
         sh.inbound_end = f;
-        recompute(&sh, &self.readiness);
+        fire(&self.readiness, Ready::readable());
         cv.notify_all();
     }
 
@@ -225,22 +238,29 @@ impl Peer {
     pub fn set_budget(&self, b: Option<usize>) {
         let (m, _) = &*self.shared;
         let mut sh = m.lock().unwrap();
+        let could = can_write(&sh);
         sh.budget = b;
-        recompute(&sh, &self.readiness);
+        if !could && can_write(&sh) {
+            fire(&self.readiness, Ready::writable());
+        }
     }
 
     pub fn grant(&self, n: usize) {
         let (m, _) = &*self.shared;
         let mut sh = m.lock().unwrap();
+        let could = can_write(&sh);
         sh.budget = Some(sh.budget.unwrap_or(0) + n);
-        recompute(&sh, &self.readiness);
+        if !could && can_write(&sh) {
+            fire(&self.readiness, Ready::writable());
+        }
     }
 
     pub fn fail_writes(&self) {
         let (m, _) = &*self.shared;
         let mut sh = m.lock().unwrap();
         sh.write_fault = true;
-        recompute(&sh, &self.readiness);
+        // an error condition on the socket is reported like readiness (EPOLLERR)
+        fire(&self.readiness, Ready::writable());
     }
 
     /// The k-th write call from now fails (k = 0: the next one).
@@ -248,7 +268,7 @@ impl Peer {
         let (m, _) = &*self.shared;
         let mut sh = m.lock().unwrap();
         sh.write_fault_after = Some(k);
-        recompute(&sh, &self.readiness);
+        fire(&self.readiness, Ready::writable());
     }
 
     /// The k-th write call from now that finds the transport willing fails once with `kind`.
